@@ -316,6 +316,12 @@ static long nv_forkloop(long n, void (*fn)(long), void (*desc)(long, char *, int
 	while (start < n) {
 		int st;
 		pid_t pid;
+		/* when case after case dies, each costs a process and a sanitizer report: stop at the deadline
+		 * or after 64 fatal cases (the enumeration is then reported as cut short) */
+		if (nv_expired_now() || fatal >= 64) {
+			fprintf(nv_out, "STAT deadline_hit 1\n");
+			break;
+		}
 		fflush(nv_out);
 		*cur = start;
 		pid = fork();
